@@ -287,6 +287,11 @@ class EnumTable:
                                         ("Debug", "unit", [], "4"), ("Trace", "unit", [], "5")])
         self.enums.setdefault("LevelFilter", [("Off", "unit", [], "0"), ("Error", "unit", [], "1"), ("Warn", "unit", [], "2"),
                                               ("Info", "unit", [], "3"), ("Debug", "unit", [], "4"), ("Trace", "unit", [], "5")])
+        ver = re.search(r'name = "similar"\nversion = "([^"]+)"', open(os.path.join(tree, "Cargo.lock")).read())
+        for p in sorted(glob.glob(os.path.expanduser(f"~/.cargo/registry/src/*/similar-{ver.group(1) if ver else '*'}/src/types.rs"))):
+            for k, v in parse_enums(open(p).read(), set()).items():
+                if k in ("DiffOp", "ChangeTag", "DiffTag"):
+                    self.enums.setdefault(k, v)
         self.enums.setdefault("DiffOp", [("Equal", "named", [], None), ("Delete", "named", [], None), ("Insert", "named", [], None),
                                          ("Replace", "named", [], None)])
         self.enums.setdefault("ChangeTag", [("Equal", "unit", [], "0"), ("Delete", "unit", [], "1"), ("Insert", "unit", [], "2")])
